@@ -1,5 +1,5 @@
 (* History-level statements for C01, assembled from the state-level lemmas. *)
-From FositeModel Require Import Base.Str Model.Scope Model.Core Model.Flows Proofs.CoreInv Proofs.StepInv Proofs.Family.
+From FositeModel Require Import Base.Str Model.Scope Model.Core Model.Flows Proofs.CoreInv Proofs.StepInv Proofs.Family Proofs.Decay.
 
 Lemma redeem_is_step cfg s auth code redirect v vh sm :
   redeem cfg s auth code redirect v vh = step cfg s (ORedeem auth code redirect v vh sm).
@@ -61,7 +61,8 @@ Proof. intros s1. apply replay_frame. apply Inv_reachable. Qed.
 Definition ex_cfg : config :=
   {| cf_scope := SWildcard; cf_aud_exact := false; cf_refresh_scopes := ["offline"]; cf_life_code := 600000%Z;
      cf_life_at := 3600000%Z; cf_life_rt := (-1)%Z; cf_pkce_enforce := false; cf_pkce_enforce_public := false;
-     cf_pkce_plain := false; cf_introspect_rt := true |}.
+     cf_pkce_plain := false; cf_introspect_rt := true; cf_life_dev := 600000%Z; cf_par_life := 300000%Z;
+     cf_par_enforced := false |}.
 Definition ex_client : client :=
   {| cl_public := false; cl_grants := ["authorization_code"; "refresh_token"]; cl_scopes := ["offline"; "photos"]; cl_aud := [] |}.
 Definition ex_authz : authz :=
